@@ -238,4 +238,22 @@ Proof.
     + destruct (v4_check H None epoch_of _ (p_dl p) now_ns) as [v4|] eqn:E4; [|discriminate].
       injection E2 as <- <-. destruct (v4_check_no_provider _ _ _ E4) as [c ->]. exists c. reflexivity.
 Qed.
+(* a request with a header value that is not text (a byte outside tab / visible ASCII - in an Authorization header, for one) is refused
+   before the signature stage: no hook, no route, no backend, whatever it presents *)
+Definition text_value (v : bytes) : bool := forallb (fun c => (c =? 9) || ((32 <=? c) && (c <=? 126))) v.
+Theorem unreadable_header_refused r n v :
+  In (n, v) (rq_headers r) -> text_value v = false -> exists code, call r = ([], OError code).
+Proof.
+  intros Hin Hv. unfold Service.call.
+  assert (Hp : exists code, pre r = inl code).
+  { unfold pre. destruct (negb (utf8_valid (pct_decode (rq_raw_path r)))); [eexists; reflexivity|].
+    destruct (address _ _ _) as [path|e|]; [|destruct e; eexists; reflexivity|eexists; reflexivity].
+    assert (Hf : forallb (fun h : bytes * bytes => forallb (fun c => (c =? 9) || ((32 <=? c) && (c <=? 126))) (snd h)) (rq_headers r) = false).
+    { apply Bool.not_true_is_false. intros Hall. rewrite forallb_forall in Hall. specialize (Hall (n, v) Hin). cbn [snd] in Hall.
+      unfold text_value in Hv. congruence. }
+    match goal with |- context [negb (forallb ?f ?l)] => replace (forallb f l) with false by (symmetry; exact Hf) end.
+    cbn [negb]. eexists; reflexivity. }
+  destruct Hp as (code & ->). exists code. reflexivity.
+Qed.
+
 End S.
